@@ -307,6 +307,80 @@ Fixpoint count_occ_nat (t : nat) (l : list nat) : nat :=
 (* round robin over single instructions *)
 Definition rr_sched (n rounds : nat) : list nat := concat (repeat (seq 0 n) rounds).
 
+(* ---- the writer-management API: Switch(w) and Close() as steps over "the current writer".
+   Writers are numbered; [wcloser w] says whether writer w is an io.Closer.
+   Switch(w): Info -> discard (documented), Trace/Warn/Error -> w, previousWriter := w, and
+              previousCloser := w only if w is an io.Closer (otherwise it keeps its old value).
+   Close():   every level -> discard; previousCloser.Close() if set, then previousCloser := nil. *)
+Inductive wmop :=
+| MSwitch (w : Z)
+| MClose
+| MLog (c : lcall).
+Record wmst := {
+  w_cur : option Z;        (* where Trace/Warn/Error write; None = ioutil.Discard *)
+  w_closer : option Z }.   (* previousCloser *)
+Definition wcloser (w : Z) : bool := (0 <=? w) && (w <? 2).
+Definition lvl_live (lvl : Z) : bool := (1 <=? lvl) && (lvl <=? 3).   (* Info is discarded in every state after Switch/Close *)
+
+(* new state, and what the step does to the outside: the Writes (writer, bytes) and the writer whose
+   Close method was called *)
+Definition wm_step (ts : bytes) (pid : Z) (st : wmst) (op : wmop) : wmst * list (Z * bytes) * option Z :=
+  match op with
+  | MSwitch w => ({| w_cur := Some w; w_closer := if wcloser w then Some w else w_closer st |}, [], None)
+  | MClose => ({| w_cur := None; w_closer := None |}, [], w_closer st)
+  | MLog c =>
+      (st, (if lvl_live (l_lvl c) then match w_cur st with Some w => [(w, call_line ts pid c)] | None => [] end else []), None)
+  end.
+Fixpoint wm_state (ts : bytes) (pid : Z) (st : wmst) (ops : list wmop) : wmst :=
+  match ops with [] => st | op :: r => wm_state ts pid (fst (fst (wm_step ts pid st op))) r end.
+Fixpoint wm_writes (ts : bytes) (pid : Z) (st : wmst) (ops : list wmop) : list (Z * bytes) :=
+  match ops with
+  | [] => []
+  | op :: r => snd (fst (wm_step ts pid st op)) ++ wm_writes ts pid (fst (fst (wm_step ts pid st op))) r
+  end.
+(* the package before any Switch: Trace goes to stdout (writer -1), nothing to close *)
+Definition wm_init : wmst := {| w_cur := Some (-1); w_closer := None |}.
+
+Definition ctx_direct (kind ref : Z) : lctx :=
+  if kind =? 0 then CNil
+  else if kind =? 1 then CObj ref
+  else if kind =? 2 then CCtx (if ref <? 0 then None else Some ref)
+  else COther.
+
+Definition sx_wmop (o : sx) : option wmop :=
+  match o with
+  | SL [SZ 0; SZ w] => Some (MSwitch w)
+  | SL [SZ 1] => Some MClose
+  | SL [SZ 2; SZ lvl; SZ fn; SZ kind; SZ ref; SL msgs] =>
+      match sx_bytes msgs with
+      | Some args => Some (MLog {| l_lvl := lvl; l_fn := fn; l_ctx := ctx_direct kind ref; l_args := args |})
+      | None => None
+      end
+  | _ => None
+  end.
+
+Fixpoint wm_obs (pid : Z) (st : wmst) (ops : list sx) : list sx :=
+  match ops with
+  | [] => []
+  | o :: r =>
+      match sx_wmop o with
+      | None => bad_case :: wm_obs pid st r
+      | Some op =>
+          let '(st', ws, cl) := wm_step ts0 pid st op in
+          (match op with
+           | MSwitch _ => SL [SZ 0]
+           | MClose => SL [SZ 1; SZ (match cl with Some w => w | None => -1 end)]
+           | MLog _ => match ws with
+                       | (w, line) :: _ => SL [SZ 2; SZ w; SB line]
+                       | [] => SL [SZ 2; SZ (-1); SB []]
+                       end
+           end) :: wm_obs pid st' r
+      end
+  end.
+
+Fixpoint sx_wmops (l : list sx) : list wmop :=
+  match l with [] => [] | o :: r => match sx_wmop o with Some op => op :: sx_wmops r | None => sx_wmops r end end.
+
 Definition run_c18 (c : sx) : sx :=
   match c with
   | SL [SZ 1; SZ pid; SZ g0; SL ops] => SL (seq_ops pid g0 [] ops)
@@ -322,6 +396,14 @@ Definition run_c18 (c : sx) : sx :=
       let n' := Z.to_nat n in let m' := Z.to_nat m in
       let s := arun (ainit repo_skel 999 (repeat m' n')) (rr_sched n' (m' * length repo_skel)) in
       SL [SZ 0; snat (length (alog s)); SZ (count_dups (ids s))]
+  | SL [SZ 6; SZ pid; SL ops] => SL (wm_obs pid wm_init ops)
+  | SL [SZ 7; SZ n; SZ m; SL mid] =>
+      (* Switch(0); n goroutines x m lines; the writer-management ops [mid]; n x m lines again:
+         (0 writer-of-batch-A count writer-of-batch-B count bad) *)
+      let stA := wm_state ts0 0 wm_init [MSwitch 0] in
+      let stB := wm_state ts0 0 stA (sx_wmops mid) in
+      let tell st := match w_cur st with Some w => [SZ w; SZ (n * m)] | None => [SZ (-1); SZ 0] end in
+      SL (SZ 0 :: tell stA ++ tell stB ++ [SZ 0])
   | SL [SZ 5; SZ n; SZ m] =>          (* n threads x m logging calls: n*m whole lines, none bad *)
       SL [SZ 0; SZ (n * m); SZ 0]
   | _ => bad_case
